@@ -46,7 +46,7 @@ class C07(HistoryProperty):
         "is evaluated afterwards"
     )
     ASSUMPTIONS = ["hashable dispatch values, type-consistent dictionaries", "no two aliases equal in Python (1 vs True)"]
-    QUICK = {"runs": 4000, "wall": 40}
+    QUICK = {"runs": 20000, "wall": 40}
     THOROUGH = {"runs": 400000, "wall": 480}
     NONTRIVIAL_MEASURE = "history_register_after_eval"
 
@@ -164,7 +164,8 @@ class C07(HistoryProperty):
         plain = {k: v for k, v in F.items() if k in ("k", "name", "args")}
         plain["id"] = "F__plain"
         plain["cache"] = "nocache"
-        tspec = {"nodes": spec["nodes"] + [plain] + [{"k": "opt", "key": k, "id": f"opt__{k}"} for k in U.DISPATCH_KEYS], "roots": spec["roots"]}
+        tspec = {"nodes": spec["nodes"] + [plain] + [{"k": "opt", "key": k, "id": f"opt__{k}"} for k in U.DISPATCH_KEYS], "roots": spec["roots"],
+                 **({"env": spec["env"]} if spec.get("env") else {})}  # (the same environment: it is part of the run, not of labrea)
         # the focus and the dataset derived from it point to ONE table of overloads; set_dispatch() on a member gives that
         # member a copy of its table with the new dispatch
         tables = [{"dispatch": F["dispatch"], "map": {}}]
